@@ -407,6 +407,8 @@ class Tracer(object):
                         if e[0] == "send" and e[3]["type"] == "request_vote" and e[4]]
                 self.act({"a": "timeout", "n": self.ix[v], "dsts": dsts})
             self._translate(v, "tick", pre_commit)
+            if o._SyncObj__raftState == LEADER or any(e[0] == "state" and e[2] == LEADER for e in self.effects):
+                self._commit_rule_coverage(v, pre_commit)
         elif kind == "deliver":
             self._deliver(ev[1], ev[2])
         elif kind in ("cut", "notice", "connect"):
@@ -434,6 +436,30 @@ class Tracer(object):
         if self.with_monitors:
             self._monitors()
         return True
+
+    def _commit_rule_coverage(self, v, pre_commit):
+        """Which side of the leader's commit rule this tick was on (evaluated on the real attributes)."""
+        o = self.sim.objs[v]
+        if o.raftCommitIndex - 1 > pre_commit:
+            self.cov["commit:advanced"] += 1
+            return
+        mi = o._SyncObj__raftMatchIndex
+        j = o._SyncObj__raftLog
+        term = o.raftCurrentTerm
+        blocked_old = False
+        for e in j[:]:
+            if e[1] <= o.raftCommitIndex:
+                continue
+            cnt = 1 + len([w for w in self.voters if w != v and mi.get(self.Node(w), 0) >= e[1]])
+            if 2 * cnt <= self.N:
+                break
+            if e[2] != term:
+                blocked_old = True
+        if blocked_old:
+            self.cov["commit:majority-holds-old-term-entry-only"] += 1
+            self.flags.add("old-term-skip")
+        elif j[-1][1] > o.raftCommitIndex:
+            self.cov["commit:no-majority-yet"] += 1
 
     def _deliver(self, a, b):
         sim = self.sim
@@ -858,3 +884,659 @@ def random_trace(d, n_events):
         l = d.leader()
         v = l if (l is not None and rng.random() < 0.7) else rng.choice(V)
         d.ev("tick", v, rng.choice(DTS[1:8]))
+
+
+# ------------------------------------------------------------------------------------------------
+# directed schedules (classic replication interleavings; built from legal events only: a message is
+# never dropped or reordered by hand, it is at most left waiting in its channel)
+# ------------------------------------------------------------------------------------------------
+def _hold_deliver(d, among, hold):
+    """deliver everything among `among` except the channels in `hold`"""
+    old = set(d.held)
+    d.held |= set(hold)
+    try:
+        d.deliver_all(among)
+    finally:
+        d.held = old
+
+
+def sc_delayed_ack_resend(d):
+    """D1 pattern: several batches in flight, the first reply regresses nextIndex, the leader re-sends,
+    late replies raise matchIndex, the follower sees only part of the re-sent batches, leader change."""
+    d.connect_all()
+    L = d.elect()
+    if L is None:
+        return "no leader"
+    F, P = [v for v in d.V if v != L][:2]
+    d.run(3)
+    d.disconnect(L, P)
+    d.disconnect(F, P)
+    for _ in range(d.rng.randrange(6, 10)):
+        d.submit(L, "mid")
+    d.ev("tick", L, 0.0625)
+    d.ev("tick", L, 0.125)
+    d.drain(L, F)
+    d.ev("deliver", F, L)
+    d.ev("tick", L, 0.25)
+    d.drain(F, L)
+    d.ev("tick", L, 0.0625)
+    for _ in range(d.rng.randrange(1, 3)):
+        d.ev("deliver", L, F)
+    d.disconnect(L, F)
+    d.ev("connect", F, P)
+    N = d.elect(among=[F, P])
+    if N is not None:
+        d.submit(N, "tiny")
+        d.run(8, among=[F, P])
+    d.connect_all()
+    d.run(12)
+    return None
+
+
+def sc_deposed_leader_snapshot(d):
+    """D2 pattern: a deposed leader with never-replicated entries is brought back by a snapshot burst."""
+    d.connect_all()
+    L = d.elect()
+    if L is None:
+        return "no leader"
+    d.submit(L, "tiny")
+    d.run(8)
+    others = [v for v in d.V if v != L]
+    for o in others:
+        d.disconnect(L, o)
+    d.submit(L, "tiny")
+    d.ev("tick", L, 0.0625)
+    L2 = d.elect(among=others)
+    if L2 is None:
+        return "no second leader"
+    for _ in range(5):
+        d.submit(L2, "tiny")
+    d.run(8, among=others)
+    d.ev("compact", L2)
+    d.run(4, among=others)
+    d.ev("connect", L, L2)
+    for _ in range(30):
+        d.ev("tick", L2, 0.0625)
+        d.ev("tick", L, 0.0)
+        d.ev("deliver", L2, L)
+        d.ev("tick", L, 0.0)
+        d.ev("deliver", L, L2)
+    d.ev("connect", L, [o for o in others if o != L2][0])
+    d.run(20)
+    return None
+
+
+def sc_stale_ack_across_terms(d):
+    """D3 pattern (5 voters): acknowledgements of term T1 wait in their channel while the same node loses
+    and regains leadership; they arrive when it leads term T3."""
+    if len(d.V) < 5:
+        return "needs 5 voters"
+    d.connect_all()
+    L = d.elect()
+    if L is None:
+        return "no leader"
+    F, P, Q, R = [v for v in d.V if v != L]
+    for x in (L, F):
+        for y in (P, Q, R):
+            d.disconnect(x, y)
+    for _ in range(3):
+        d.submit(L, "tiny")
+    d.ev("tick", L, 0.0625)
+    d.ev("tick", L, 0.25)
+    d.drain(L, F)
+    hold = {(F, L)}
+    d.held |= hold                  # F's acknowledgements of term T1 stay in the channel
+    N = d.elect(among=[P, Q, R])
+    if N is None:
+        return "no leader in the other partition"
+    d.run(5, among=[P, Q, R])
+    d.ev("connect", N, L)
+    for _ in range(8):
+        for v in (P, Q, R):
+            d.ev("tick", v, 0.0625)
+        d.deliver_all(among=[P, Q, R, L])
+    for x in (P, Q, R):
+        d.ev("connect", L, x)
+    for _ in range(120):
+        d.ev("tick", L, 0.0625)
+        d.deliver_all(among=[P, Q, R, L])
+        if d.sim.objs[L]._isLeader():
+            break
+    if not d.sim.objs[L]._isLeader():
+        d.held -= hold
+        return "old leader not re-elected"
+    d.held -= hold
+    d.drain(F, L)                   # the stale acknowledgements
+    d.submit(L, "tiny")
+    for x in (Q, R):
+        d.disconnect(L, x)
+    for _ in range(6):
+        d.ev("tick", L, 0.0625)
+        d.ev("tick", P, 0.0625)
+        d.deliver_all(among=[L, P])
+    d.connect_all()
+    d.run(10)
+    return None
+
+
+def sc_snapshot_to_uptodate_follower(d):
+    """D4 pattern: two `reset` replies in flight; after the first the follower catches up and applies, the
+    leader compacts; the second (stale) reply makes the leader send a snapshot the follower already holds."""
+    d.connect_all()
+    L = d.elect()
+    if L is None:
+        return "no leader"
+    F = [v for v in d.V if v != L][0]
+    rest = [v for v in d.V if v not in (L, F)]
+    d.run(2)
+    for v in d.V:
+        if v != F:
+            d.disconnect(v, F)
+    for _ in range(6):
+        d.submit(L, "tiny")
+    d.run(8, among=[L] + rest)
+    # a NEW leader starts with nextIndex = its own end for everybody, also for the lagging follower
+    if rest:
+        C = rest[0]
+        for _ in range(40):
+            d.ev("tick", C, 2.0)
+            d.deliver_all(among=[L] + rest)
+            if d.sim.objs[C]._isLeader():
+                break
+        if not d.sim.objs[C]._isLeader():
+            return "no second leader"
+        L = C
+        rest = [v for v in d.V if v not in (L, F)]
+    d.ev("connect", L, F)
+    d.held.add((F, L))
+    d.ev("tick", L, 0.25)
+    d.drain(L, F)
+    d.ev("tick", L, 0.25)
+    d.drain(L, F)
+    d.held.discard((F, L))
+    resets = [m for m in d.sim.chan[(F, L)] if m.get("type") == "next_node_idx" and m.get("reset")]
+    if len(resets) < 2:
+        d.run(6)
+        return "less than two reset replies in flight"
+    d.ev("deliver", F, L)
+    d.held.add((F, L))
+    for _ in range(4):
+        d.ev("tick", L, 0.125)
+        d.drain(L, F)
+        d.ev("tick", F, 0.0625)
+    d.held.discard((F, L))
+    # every reply but the last stale reset ... the channel is FIFO: the stale reset is next
+    d.ev("compact", L)
+    d.ev("tick", L, 0.0)
+    d.ev("tick", L, 0.0)
+    d.ev("deliver", F, L)            # stale reset: nextIndex falls behind the compacted prefix
+    d.ev("tick", L, 0.25)
+    d.drain(L, F)
+    d.drain(F, L)
+    d.connect_all()
+    d.run(8)
+    return None
+
+
+def sc_old_term_entry(d):
+    """Commit rule: a new leader holds entries of an older term on a majority before its own no-op is
+    acknowledged; they may only be committed together with an entry of its own term."""
+    d.connect_all()
+    L = d.elect()
+    if L is None:
+        return "no leader"
+    F, P = [v for v in d.V if v != L][:2]
+    rest = [v for v in d.V if v not in (L, F, P)]
+    d.run(3)
+    for _ in range(3):
+        d.submit(L, "mid")
+    d.ev("tick", L, 0.0625)
+    d.ev("tick", L, 0.125)
+    d.drain(L, F)
+    d.isolate([L])
+    N = None
+    for _ in range(200):
+        d.ev("tick", F, 0.0625)
+        _hold_deliver(d, [F, P] + rest, {(F, P)} if d.sim.objs[F]._isLeader() else set())
+        if d.sim.objs[F]._isLeader():
+            N = F
+            break
+    if N is None:
+        d.connect_all()
+        d.run(10)
+        return "follower holding the old entries did not win"
+    d.ev("tick", F, 0.125)
+    # the batches go out one by one: old-term entries first
+    for _ in range(6):
+        if d.sim.chan[(F, P)]:
+            d.ev("deliver", F, P)
+            d.drain(P, F)
+            d.ev("tick", F, 0.0)
+    d.run(6, among=[F, P] + rest)
+    d.connect_all()
+    d.run(10)
+    return None
+
+
+def sc_split_votes(d):
+    """Simultaneous candidates, stale vote replies, even sizes."""
+    rng = d.rng
+    d.connect_all()
+    for rnd in range(6):
+        cands = [v for v in d.V if rng.random() < 0.6] or [d.V[0]]
+        for v in cands:
+            d.ev("tick", v, 2.0)
+        chans = d.channels()
+        rng.shuffle(chans)
+        for c in chans:
+            if rng.random() < 0.8:
+                d.drain(c[0], c[1], limit=rng.randrange(1, 4))
+        if rng.random() < 0.5:
+            d.deliver_all()
+        l = d.leader()
+        if l is not None and rng.random() < 0.5:
+            d.submit(l, "tiny")
+            d.run(2)
+    d.run(6)
+    return None
+
+
+SCENARIOS = [
+    ("delayed_ack_resend", sc_delayed_ack_resend, 3, {"appendEntriesBatchSizeBytes": 128}),
+    ("deposed_leader_snapshot", sc_deposed_leader_snapshot, 3, {"logCompactionBatchSize": 8}),
+    ("stale_ack_across_terms", sc_stale_ack_across_terms, 5, {}),
+    ("snapshot_to_uptodate_follower", sc_snapshot_to_uptodate_follower, 3, {"logCompactionBatchSize": 24}),
+    ("old_term_entry", sc_old_term_entry, 3, {"appendEntriesBatchSizeBytes": 64}),
+    ("split_votes", sc_split_votes, 4, {}),
+]
+
+
+def sc_isolated_leader_and_callbacks(d):
+    """Leader fallback (stepDown) and every definite failure reason of the callback contract:
+    QUEUE_FULL, MISSING_LEADER, NOT_LEADER, DISCARDED (conf: small queue, no waiting for a leader,
+    short leaderFallbackTimeout)."""
+    d.connect_all()
+    L = d.elect()
+    if L is None:
+        return "no leader"
+    F, P = [v for v in d.V if v != L][:2]
+    d.run(3)
+    for _ in range(6):
+        d.submit(L, "tiny")                 # queue of 3: QUEUE_FULL for the rest
+    d.run(6)
+    d.isolate([L])
+    d.submit(L, "tiny")
+    d.ev("tick", L, 0.0625)                 # appended by the isolated leader, never replicated
+    N = d.elect(among=[F, P])
+    if N is None:
+        return "no second leader"
+    d.submit(N, "tiny")
+    d.run(6, among=[F, P])
+    d.ev("tick", L, 1.0)                    # fallback: no majority answered within leaderFallbackTimeout
+    d.submit(L, "tiny")
+    d.ev("tick", L, 0.0625)                 # MISSING_LEADER
+    d.connect_all()
+    d.run(8)                                # old leader's entry is replaced: DISCARDED
+    # NOT_LEADER: Y still believes in X while X already follows Z; Y forwards a command to X
+    X = d.leader()
+    if X is None:
+        return "no leader at the end"
+    Y, Z = [v for v in d.V if v != X][:2]
+    d.isolate([Y])
+    for _ in range(40):
+        d.ev("tick", Z, 2.0)
+        d.deliver_all(among=[X, Z])
+        if d.sim.objs[Z]._isLeader():
+            break
+    if not d.sim.objs[Z]._isLeader():
+        return "no third leader"
+    d.run(3, among=[X, Z])
+    d.ev("connect", Y, X)
+    d.submit(Y, "tiny")
+    d.ev("tick", Y, 0.0)
+    d.drain(Y, X)
+    d.ev("tick", X, 0.0)
+    d.drain(X, Y)
+    d.connect_all()
+    d.run(8)
+    return None
+
+
+SCENARIOS.append(("isolated_leader_and_callbacks", sc_isolated_leader_and_callbacks, 3,
+                  {"commandsQueueSize": 3, "commandsWaitLeader": False, "leaderFallbackTimeout": 0.5}))
+
+
+# ------------------------------------------------------------------------------------------------
+# running, shrinking, corpus
+# ------------------------------------------------------------------------------------------------
+SIZES = [3, 5, 2, 4, 3, 1, 3, 5, 4, 2]
+
+
+def build_item(repo, item, base_seed, n_events):
+    """item = ("random", k) | ("scenario", name, k) | ("corpus", path).  Returns the finished Tracer."""
+    import random as _random
+    if item[0] == "random":
+        k = item[1]
+        rng = _random.Random("%d/core_trace/random/%d" % (base_seed, k))
+        N = SIZES[k % len(SIZES)]
+        conf = draw_conf(rng)
+        conf["appendEntriesUseBatch"] = (k % 2 == 0)
+        tr = Tracer(repo, list(range(N)), conf, base_seed * 100003 + k)
+        random_trace(Director(tr, rng), n_events)
+        tr.finish()
+        return tr
+    if item[0] == "scenario":
+        name, k = item[1], item[2]
+        rng = _random.Random("%d/core_trace/%s/%d" % (base_seed, name, k))
+        (_, fn, N, conf) = [x for x in SCENARIOS if x[0] == name][0]
+        conf = dict(conf)
+        if k % 2 == 1:
+            conf["appendEntriesUseBatch"] = False
+        if k >= 2:
+            N = max(N, [3, 5, 4][k % 3]) if name != "old_term_entry" else N
+        tr = Tracer(repo, list(range(N)), conf, base_seed * 100003 + 7919 * k)
+        d = Director(tr, rng)
+        note = fn(d)
+        if note:
+            tr.cov["scenario-not-reached:%s" % name] += 1
+        if k >= 1:
+            random_trace(d, len(tr.events) + n_events // 3)      # continue from the reached state
+        tr.finish()
+        return tr
+    if item[0] == "corpus":
+        ent = json.load(open(item[1]))
+        return run_schedule(repo, ent["spec"])
+    raise ValueError(item)
+
+
+def summarize(tr, item, mm):
+    spec = spec_of(tr)
+    h = hashlib.sha1(json.dumps(spec, sort_keys=True, default=str).encode()).hexdigest()[:16]
+    cb = collections.Counter("callback:%s" % c[3] for c in tr.sim.callbacks)
+    cov = collections.Counter(tr.cov)
+    cov.update(cb)
+    r = {"item": list(item), "N": tr.N, "events": len(tr.events), "lines": len(tr.lines), "cov": dict(cov),
+         "flags": sorted(tr.flags), "hash": h, "batch": bool(tr.conf.get("appendEntriesUseBatch", True)),
+         "mismatch": mm, "violations": tr.violations[:5], "internal": tr.internal[:3],
+         "commits": max([tr.sim.objs[v].raftCommitIndex for v in tr.voters]) - 1}
+    if mm or tr.violations or tr.internal:
+        r["spec"] = spec
+    return r
+
+
+def _work(args):
+    repo, items, base_seed, n_events, deadline = args
+    out = []
+    batch = []
+    for it in items:
+        if time.time() > deadline:
+            break
+        try:
+            batch.append((it, build_item(repo, it, base_seed, n_events)))
+        except Exception:
+            import traceback
+            out.append({"item": list(it), "error": traceback.format_exc()[-1500:]})
+        if len(batch) >= 8:
+            out.extend(_flush(batch))
+            batch = []
+    out.extend(_flush(batch))
+    return out
+
+
+def _flush(batch):
+    if not batch:
+        return []
+    try:
+        mms = verify_many([tr for (_, tr) in batch])
+    except Exception:
+        import traceback
+        return [{"item": list(it), "error": traceback.format_exc()[-1500:]} for (it, _) in batch]
+    return [summarize(tr, it, mm) for ((it, tr), mm) in zip(batch, mms)]
+
+
+def fails_like(repo, spec, events, cls, kind):
+    """Does the schedule restricted to `events` still fail in the same way?"""
+    try:
+        tr = run_schedule(repo, spec, with_monitors=(kind == "violation"), events=events)
+    except Exception:
+        return None
+    if kind == "violation":
+        hit = [e for (e, v) in tr.violations if v["signature"] == cls]
+        return (tr, hit[0]) if hit else None
+    if tr.internal:
+        return None
+    mm = verify(tr)
+    if mm and mm.get("class") == cls:
+        return (tr, mm)
+    return None
+
+
+def shrink(repo, spec, cls, kind, event_no, budget_s=20.0):
+    """Drop events (ddmin style) while the same failure class remains."""
+    t0 = time.time()
+    events = list(spec["events"])
+    if event_no is not None and event_no + 1 < len(events):
+        cut = events[:event_no + 1]
+        if fails_like(repo, spec, cut, cls, kind):
+            events = cut
+    n = 2
+    while len(events) >= 2 and time.time() - t0 < budget_s:
+        chunk = max(len(events) // n, 1)
+        removed = False
+        k = 0
+        while k < len(events) and time.time() - t0 < budget_s:
+            cand = events[:k] + events[k + chunk:]
+            if cand and fails_like(repo, spec, cand, cls, kind):
+                events = cand
+                removed = True
+            else:
+                k += chunk
+        if chunk == 1 and not removed:
+            break
+        if not removed:
+            n = min(n * 2, len(events))
+        else:
+            n = max(n - 1, 2)
+    out = dict(spec)
+    out["events"] = events
+    return out
+
+
+def corpus_files():
+    if not os.path.isdir(CORPUS):
+        return []
+    return sorted(os.path.join(CORPUS, f) for f in os.listdir(CORPUS) if f.endswith(".json"))
+
+
+def corpus_store(kind, cls, spec, what):
+    os.makedirs(CORPUS, exist_ok=True)
+    h = hashlib.sha1(json.dumps(spec, sort_keys=True, default=str).encode()).hexdigest()[:10]
+    name = "%s-%s-%s.json" % (kind, "".join(c if c.isalnum() else "_" for c in cls)[:50], h)
+    path = os.path.join(CORPUS, name)
+    if not os.path.exists(path):
+        mine = [f for f in corpus_files() if os.path.basename(f).startswith("%s-" % kind)]
+        if len(mine) >= 24:
+            return None
+        checklib.write_json(path, {"kind": kind, "class": cls, "what": what, "spec": spec})
+    return path
+
+
+FLOORS_ACTIONS = ["timeout", "recvReqVote", "recvVote", "clientAppend", "sendAppend", "recvAppend", "recvAck",
+                  "advanceCommit", "stepDown", "apply", "observeTerm", "sendSnapshot", "recvSnapshot", "lose"]
+FLOORS_COV = ["vote:granted", "vote:denied", "voteReply:counted", "voteReply:ignored", "append:accepted",
+              "append:prev-mismatch", "append:stale-term", "append:non-final", "append:chunked-entry-accepted",
+              "ack:current-term", "ack:ignored-not-leader", "ack:ignored-other-term", "snapshot:installed",
+              "snapshot:kept", "real:truncate", "commit:advanced", "commit:majority-holds-old-term-entry-only",
+              "commit:no-majority-yet", "callback:0", "callback:1", "callback:2", "callback:3", "callback:4"]
+FLOORS_FLAGS = {"leader-change": 3, "truncation": 1, "chunked": 1, "snapshot-installed": 1, "snapshot-kept": 1,
+                "stale-ack": 1, "old-term-skip": 1}
+
+
+def plan(ctx):
+    quick = ctx.tier == "quick"
+    n_events = 300 if quick else 1200
+    items = [("corpus", f) for f in corpus_files()]
+    reps = 2 if quick else 12
+    for (name, _, _, _) in SCENARIOS:
+        for k in range(reps):
+            items.append(("scenario", name, k))
+    for k in range(40 if quick else 1600):
+        items.append(("random", k))
+    return items, n_events
+
+
+def run(ctx):
+    t0 = time.time()
+    items, n_events = plan(ctx)
+    budget = 14.0 if ctx.tier == "quick" else 300.0
+    deadline = t0 + budget
+    jobs = max(1, min(ctx.jobs, len(items)))
+    # directed and corpus items first, spread over the workers
+    shards = [items[k::jobs] for k in range(jobs)]
+    args = [(ctx.repo, sh, ctx.seed, n_events, deadline) for sh in shards]
+    if jobs > 1:
+        mp = multiprocessing.get_context("fork")
+        with mp.Pool(jobs) as pool:
+            parts = pool.map(_work, args)
+    else:
+        parts = [_work(a) for a in args]
+    results = [r for p in parts for r in p]
+    return assemble(ctx, results, t0, len(items))
+
+
+def assemble(ctx, results, t0, planned):
+    cov = collections.Counter()
+    flags = collections.Counter()
+    sizes = collections.Counter()
+    modes = collections.Counter()
+    hashes = set()
+    events = 0
+    lines = 0
+    errors = []
+    disagreements = []
+    violations = []
+    seen_cls = set()
+    for r in results:
+        if r.get("error"):
+            errors.append(r)
+            continue
+        cov.update(r["cov"])
+        for f in r["flags"]:
+            flags[f] += 1
+        sizes[str(r["N"])] += 1
+        modes["batch" if r["batch"] else "single"] += 1
+        if r["events"] >= 20:
+            hashes.add(r["hash"])
+        events += r["events"]
+        lines += r["lines"]
+    shrink_deadline = time.time() + (25.0 if ctx.tier == "quick" else 120.0)
+    for r in results:
+        if r.get("error"):
+            continue
+        for note in r.get("internal", []):
+            if "internal" not in seen_cls:
+                seen_cls.add("internal")
+                disagreements.append({"input": {"item": r["item"]}, "model": None, "impl": None,
+                                      "note": "harness bookkeeping inconsistent: " + note, "spec": r.get("spec")})
+        mm = r.get("mismatch")
+        if mm and mm["class"] not in seen_cls and len(disagreements) < 3:
+            seen_cls.add(mm["class"])
+            spec = r["spec"]
+            if time.time() < shrink_deadline:
+                small = shrink(ctx.repo, spec, mm["class"], "mismatch", mm.get("event_no"),
+                               budget_s=min(20.0, max(shrink_deadline - time.time(), 1.0)))
+                got = fails_like(ctx.repo, small, small["events"], mm["class"], "mismatch")
+                if got:
+                    spec, mm = small, got[1]
+            path = corpus_store("mismatch", mm["class"], spec, mm.get("why") or mm.get("diff"))
+            disagreements.append({"input": {"item": r["item"], "schedule": spec, "corpus": path},
+                                  "model": mm.get("model_state") or mm.get("model_state_before_event"),
+                                  "impl": mm.get("impl_state"),
+                                  "note": "%s at event %s %s: %s" % (mm["class"], mm.get("event_no"), mm.get("event"),
+                                                                    json.dumps(mm.get("action") or mm.get("diff"), default=str)[:600]),
+                                  "actions": mm.get("actions")})
+        for (evno, v) in r.get("violations", []):
+            sig = v["signature"]
+            if ("v", sig) in seen_cls:
+                continue
+            seen_cls.add(("v", sig))
+            spec = r["spec"]
+            if time.time() < shrink_deadline:
+                small = shrink(ctx.repo, spec, sig, "violation", evno,
+                               budget_s=min(20.0, max(shrink_deadline - time.time(), 1.0)))
+                got = fails_like(ctx.repo, small, small["events"], sig, "violation")
+                if got:
+                    spec = small
+                    v = dict([x for x in got[0].violations if x[1]["signature"] == sig][0][1])
+            path = corpus_store("violation", sig, spec, v["what"])
+            violations.append({"signature": sig, "what": "%s (schedule of %d events on %d voters, conf %s)"
+                               % (v["what"], len(spec["events"]), len(spec["voters"]), json.dumps(spec["conf"], sort_keys=True)),
+                               "replay": {"spec": spec, "signature": sig, "corpus": path}})
+    coverage = {"traces": len(results) - len(errors), "planned": planned, "real_events": events, "model_lines": lines,
+                "cluster_sizes": dict(sizes), "append_modes": dict(modes),
+                "actions_validated": dict((k[4:], cov[k]) for k in sorted(cov) if k.startswith("act:")),
+                "real_event_kinds": dict((k[3:], cov[k]) for k in sorted(cov) if k.startswith("ev:")),
+                "delivered": dict((k[8:], cov[k]) for k in sorted(cov) if k.startswith("deliver:")),
+                "branches": dict((k, cov[k]) for k in sorted(cov) if k.split(":")[0] in
+                                 ("vote", "voteReply", "append", "ack", "snapshot", "commit", "send", "real", "callback",
+                                  "scenario-not-reached")),
+                "traces_with": dict(flags)}
+    res = {"name": "corr.core_trace", "cases": len(results) - len(errors), "distinct": len(hashes),
+           "coverage": coverage, "samples": [], "disagreements": disagreements, "violations": violations,
+           "wall_s": round(time.time() - t0, 2)}
+    for r in results:
+        if not r.get("error") and r["events"] >= 20 and len(res["samples"]) < 2:
+            res["samples"].append({"item": r["item"], "voters": r["N"], "events": r["events"], "model_lines": r["lines"],
+                                   "flags": r["flags"], "max_commit_position": r["commits"]})
+    if errors:
+        res["error"] = "trace construction failed: " + errors[0]["error"]
+        return res
+    missing = [a for a in FLOORS_ACTIONS if cov["act:" + a] == 0]
+    missing += [c for c in FLOORS_COV if cov[c] == 0]
+    missing += ["traces-with-%s<%d" % (f, n) for f, n in FLOORS_FLAGS.items() if flags[f] < n]
+    missing += ["cluster-size-%d" % n for n in (1, 2, 3, 4, 5) if sizes[str(n)] == 0]
+    missing += ["append-mode-%s" % m for m in ("batch", "single") if modes[m] == 0]
+    if missing and not disagreements and not violations:
+        res["inconclusive"] = "coverage floor missed: " + ", ".join(missing[:12])
+    return res
+
+
+def search(ctx, unproved):
+    """Look for a concrete failing input on the REAL code: more and longer random schedules with the
+    property monitors only (no model involved)."""
+    t0 = time.time()
+    budget = 40.0 if ctx.tier == "quick" else 240.0
+    found = {}
+    k = 0
+    import random as _random
+    while time.time() - t0 < budget and len(found) < 3:
+        k += 1
+        rng = _random.Random("%d/core_trace/search/%d" % (ctx.seed, k))
+        N = SIZES[k % len(SIZES)]
+        tr = Tracer(ctx.repo, list(range(N)), draw_conf(rng), ctx.seed * 7 + k)
+        if k % 4 == 0:
+            (name, fn, n2, conf) = SCENARIOS[(k // 4) % len(SCENARIOS)]
+            tr = Tracer(ctx.repo, list(range(n2)), conf, ctx.seed * 7 + k)
+            d = Director(tr, rng)
+            fn(d)
+        else:
+            d = Director(tr, rng)
+        random_trace(d, len(tr.events) + 1500)
+        tr.finish()
+        for (evno, v) in tr.violations:
+            if v["signature"] not in found:
+                spec = shrink(ctx.repo, spec_of(tr), v["signature"], "violation", evno, budget_s=15.0)
+                found[v["signature"]] = {"signature": v["signature"], "what": v["what"],
+                                         "replay": {"spec": spec, "signature": v["signature"]}}
+    return list(found.values())
+
+
+def replay(ctx, violation):
+    rp = violation.get("replay") or {}
+    spec = rp.get("spec")
+    if not spec:
+        return {"violated": False, "note": "no schedule in the violation record"}
+    tr = run_schedule(ctx.repo, spec)
+    hit = [v for (_, v) in tr.violations if v["signature"] == rp.get("signature")]
+    return {"violated": bool(hit), "violations": [v for (_, v) in tr.violations][:5], "events": len(tr.events),
+            "mismatch": verify(tr)}
